@@ -20,6 +20,14 @@ JAR = "/opt/veriftools/tla/tla2tools.jar:/opt/veriftools/tla/CommunityModules-de
 REPO = "/repo"
 
 
+class CodePanic(Exception):
+    """The library under test panicked in a harness call that is not individually guarded."""
+
+    def __init__(self, args, where, msg):
+        super().__init__(f"panic in the library at {where}: {msg}")
+        self.cmd, self.where, self.msg = args, where, msg
+
+
 class ToolError(Exception):
     pass
 
@@ -58,6 +66,11 @@ def pgv(args, stdin=None, timeout=1800, env=None, check=True):
     p = subprocess.run([PGV] + args, input=stdin, stdout=subprocess.PIPE, stderr=subprocess.PIPE,
                        text=True, timeout=timeout, env=e)
     if check and p.returncode != 0:
+        # a panic whose location is inside the library under test is data (the call had no answer),
+        # not a failure of the tooling: the driver reports it as a violation of the property checked
+        m = re.search(r"harness panic: panicked at (/repo/src/[^\n]*)\n([^\n]*)", p.stderr)
+        if p.returncode == 101 and m:
+            raise CodePanic(args, m.group(1), m.group(2))
         raise ToolError(f"pgv {' '.join(args)} exited {p.returncode}:\n{p.stderr[-3000:]}")
     return p
 
@@ -72,7 +85,7 @@ class Scratch:
         self.dir = os.path.join(ROOT, "work", f"{name}-{os.getpid()}")
         shutil.rmtree(self.dir, ignore_errors=True)
         os.makedirs(self.dir)
-        for pat in ("*.tla", "lib/*.tla", "mc/*.tla", "mc/*.cfg", "trace/*.tla", "trace/*.cfg"):
+        for pat in ("*.tla", "lib/*.tla", "mc/*.tla", "mc/*.cfg", "trace/*.tla", "trace/*.cfg", "proofs/*.tla"):
             for f in glob.glob(os.path.join(SPEC, pat)):
                 shutil.copy(f, self.dir)
 
@@ -190,12 +203,34 @@ def run_tlc(scratch, module, cfg=None, workers=1, timeout=600, env=None, simulat
     return r
 
 
+def run_tlapm(scratch, module, timeout=600):
+    """Check the TLAPS proofs of scratch/<module>.tla. Returns (proved, total, output)."""
+    t0 = time.time()
+    try:
+        p = subprocess.run(["tlapm", "--threads", "8", "-I", ".", module + ".tla"], cwd=scratch.dir,
+                           stdout=subprocess.PIPE, stderr=subprocess.STDOUT, text=True, timeout=timeout)
+    except FileNotFoundError:
+        raise ToolError("tlapm not found")
+    except subprocess.TimeoutExpired:
+        raise ToolError(f"tlapm timeout after {timeout}s")
+    out = p.stdout
+    m = re.search(r"All (\d+) obligations proved", out)
+    if m:
+        return int(m.group(1)), int(m.group(1)), out, time.time() - t0
+    m = re.search(r"(\d+)/(\d+) obligations failed", out)
+    if m:
+        return int(m.group(2)) - int(m.group(1)), int(m.group(2)), out, time.time() - t0
+    raise ToolError("tlapm: unexpected output\n" + out[-2000:])
+
+
 def sany_all():
     """Parse every module (setup check)."""
     s = Scratch("sany")
     bad = []
     try:
         for f in sorted(glob.glob(os.path.join(s.dir, "*.tla"))):
+            if os.path.basename(f) in ("CacheLayoutProofs.tla",):
+                continue        # needs the TLAPS standard module: checked by tlapm in C11
             p = subprocess.run(["java", "-cp", JAR, "tla2sany.SANY", os.path.basename(f)], cwd=s.dir,
                                stdout=subprocess.PIPE, stderr=subprocess.STDOUT, text=True)
             if p.returncode != 0 or "error" in p.stdout.lower().replace("errors: 0", ""):
